@@ -244,6 +244,13 @@ def rule_ccs(ctx):
     efft = [t for t in typ if "T" in dead_edge_labels(g, t, rs)]
     ctx.require(bool(typ), "C06.CCS: ChangeCipherSpec type check not found in _getFinished")
     # every ChangeCipherSpec receive reaches the read-state switch only through an effective type gate
+    # every receive of _getFinished happens at most once per call (a loop would accept duplicates)
+    for c in consumes_of(g, "_getMsg"):
+        again = c.id in g.reach([m for m in g.normal_succ(c) if m is not c], follow_exc=False)
+        ctx.check(R, not again, fi.qname, "receive #%d is not repeated" % c.line,
+                  "_getFinished can receive the same kind of message again in a loop: a duplicated "
+                  "NewSessionTicket / ChangeCipherSpec / Finished would be accepted instead of aborting",
+                  fi.loc(c.ast) if c.ast is not None else fi.loc())
     from .common import reach_flagged
     for c in ccs:
         seen = reach_flagged(g, g.normal_succ(c), blocked=efft + [x for x in ccs if x is not c])
